@@ -167,7 +167,13 @@ func (s *ScanMethod) ProcessPacketData(data []byte, _ *gopacket.CaptureInfo) (er
 }
 
 func validPacket(decoded []gopacket.LayerType) bool {
-	return len(decoded) == 3 || (len(decoded) == 2 && decoded[0] == layers.LayerTypeIPv4)
+	// the decoders are reused between packets: only accept the exact layer chain,
+	// otherwise fields of a previous packet would be reported
+	n := len(decoded)
+	if n < 2 || decoded[n-1] != layers.LayerTypeTCP || decoded[n-2] != layers.LayerTypeIPv4 {
+		return false
+	}
+	return n == 2 || (n == 3 && decoded[0] == layers.LayerTypeEthernet)
 }
 
 type PacketFiller struct {
